@@ -66,7 +66,18 @@ def sx_parse(s):
 BINOP = {"add": "+", "sub": "-", "mul": "*", "div": "/", "mod": "%"}
 CMPOP = {"lt": "<", "le": "<=", "gt": ">", "ge": ">=", "eq": "==", "ne": "!="}
 UNION = "Int | String | Symbol | Char | Bool | nil"
-TYNAME = {"I": "Int", "B": "Bool", "S": "String", "O": "K0", "U": UNION, "LO": "List[K0]", "LU": "List[%s]" % UNION}
+TYNAME = {"I": "Int", "B": "Bool", "S": "String", "O": "K0", "U": UNION, "LO": "List[K0]", "LU": "List[%s]" % UNION,
+          "Rcc": "ClosedRange[Int]", "Rco": "RightOpenRange[Int]", "Roc": "LeftOpenRange[Int]", "Roo": "OpenRange[Int]"}
+# for-in over a range VALUE held in a local is kept OUT of the generated (gating) family: on the unchanged tree the Go
+# back end keeps the range's `end` in a temporary that the loop body reuses (known finding `...:for-range-value`, witness
+# in corpus/C09.native.txt); the model, the printer and the corpus cover the construct
+RANGE_VALUE_LOOPS = False
+RANGEOP = {"cc": "...", "co": "..<", "oc": "<..", "oo": "<.<"}
+
+
+def elk_bound(e, names):
+    t = elk_expr(e, names)
+    return t if re.fullmatch(r"-?\w+", t) or t.startswith("(") else "(%s)" % t
 
 
 def elk_expr(e, names):
@@ -114,6 +125,8 @@ def elk_expr(e, names):
         return "%s.n%s(%s)" % (r, e[2], ", ".join(elk_expr(a, names) for a in e[3:]))
     if k == "list":
         return "[%s]" % ", ".join(elk_expr(a, names) for a in e[1:])
+    if k == "range":
+        return "%s%s%s" % (elk_bound(e[2], names), RANGEOP[e[1]], elk_bound(e[3], names))
     raise ValueError(e)
 
 
@@ -243,10 +256,89 @@ class Gen:
             return self.olist()
         if t == "LU":
             return self.ulist()
-        if t in ("fO", "fU"):
+        if t in ("fO", "fU", "fI"):
             return ["nil"]
+        if t in TYNAME and t.startswith("R"):
+            return self.range_lit(t[1:])
         w = self.r.choice(WORDS + [None])
         return ["s"] if w is None else ["s", w]
+
+    def range_lit(self, op):
+        """a range literal with literal bounds: mostly 0..6 elements, sometimes empty / start > end / one element"""
+        r = self.r
+        a = r.range(-5, 6)
+        b = a + r.choice([-3, -1, 0, 0, 1, 1, 2, 3, 4, 6])
+        return ["range", op, ["i", str(a)], ["i", str(b)]]
+
+    def range_bound(self, sc, pre, held):
+        """an Int bound of small magnitude: literal, (<Int variable> % m) [+ literal], or a local set just before the loop"""
+        r = self.r
+        c = r.below(8)
+        if c < 3:
+            return ["i", str(r.range(-5, 7))]
+        if c < 6:
+            v = self.var("I", sc)
+            if v is not None:
+                self.f("range_bound_expr")
+                e = ["bin", "mod", v, ["i", str(r.range(2, 6))]]
+                return e if r.chance(1, 2) else ["bin", r.choice(["add", "sub"]), e, ["i", str(r.range(0, 3))]]
+        free = [i for i in sc["counter_slots"] if i not in sc["counters"]]
+        if free:
+            self.f("range_bound_var")
+            k = free[0]
+            sc["counters"].add(k)
+            held.append(k)
+            pre.append(["set", str(k), ["i", str(r.range(-4, 6))]])
+            return ["v", str(k)]
+        return ["i", str(r.range(-5, 7))]
+
+    def forin_range(self, sc, depth, in_method, loop_depth):
+        """for <fresh loop variable> in <range literal | range-typed local>: the body prints / accumulates the element.
+        Every loop has its own variable name (a second numeric-style for-in with the same name is a known back-end panic)"""
+        r = self.r
+        free = [x for x in sc["rangevars"] if x not in sc["rv_used"]]
+        if not free:
+            return []
+        x = free[0]
+        sc["rv_used"].add(x)
+        pre, held = [], []
+        rlocals = [i for i, ty in enumerate(sc["types"]) if ty in TYNAME and ty.startswith("R")]
+        if rlocals and RANGE_VALUE_LOOPS and r.chance(1, 4):
+            i = r.choice(rlocals)
+            op = sc["types"][i][1:]
+            if r.chance(1, 2):
+                pre.append(["set", str(i), ["range", op, self.range_bound(sc, pre, held), self.range_bound(sc, pre, held)]])
+            it = ["v", str(i)]
+            self.f("for_range_value_" + op)
+        else:
+            op = r.choice(["cc", "co", "oc", "oo"])
+            if r.chance(1, 3):
+                it = self.range_lit(op)
+            else:
+                a = self.range_bound(sc, pre, held)
+                b = self.range_bound(sc, pre, held)
+                if r.chance(1, 3) and a[0] == "i":
+                    b = ["i", str(int(a[1]) + r.range(-1, 2))]      # empty / one / two elements around the boundary
+                it = ["range", op, a, b]
+            self.f("for_range_literal_" + op)
+        sc["hidden"].discard(x)
+        xv = ["v", str(x)]
+        body = []
+        accs = [i for i, ty in enumerate(sc["types"]) if ty == "I" and i >= sc["nparams"] and i not in sc["counters"]
+                and i not in sc["hidden"] and i not in sc["rangevars"] and i not in sc["counter_slots"]]
+        c = r.below(3)
+        if c != 1 or not accs:
+            body.append(["print", ["cat", ["s", "r"], ["insp", xv]]])
+        if c != 0 and accs:
+            self.f("range_accumulate")
+            k = str(r.choice(accs))
+            body.append(["set", k, ["bin", r.choice(["add", "add", "sub", "mul"]), ["v", k], xv]])
+        if r.chance(1, 2) and depth > 0:
+            body += self.stmts(sc, r.range(1, 2), depth - 1, in_method, loop_depth + 1)
+        sc["hidden"].add(x)
+        for k in held:
+            sc["counters"].discard(k)
+        return pre + [["for", str(x), it, body]]
 
     def new_obj(self, c):
         return ["new", str(c), ["i", str(self.r.range(0, 9))]]
@@ -422,6 +514,11 @@ class Gen:
         r = self.r
         out = []
         for _ in range(n):
+            if sc["rangevars"] and loop_depth < 2 and r.chance(1, 5):
+                fr = self.forin_range(sc, depth, in_method, loop_depth)
+                if fr:
+                    out += fr
+                    continue
             if self.ci and r.chance(1, 4):
                 c = r.below(5)
                 lists = [i for i, ty in enumerate(sc["types"]) if ty in ("LO", "LU") and sc["loopvar"].get(ty) is not None
@@ -439,7 +536,8 @@ class Gen:
             c = r.below(14)
             if c < 5:
                 t = r.choice(["I", "I", "I", "B", "S"])
-                cands = [i for i, ty in enumerate(sc["types"]) if ty == t and i >= sc["nparams"] and i not in sc["counters"]]
+                cands = [i for i, ty in enumerate(sc["types"]) if ty == t and i >= sc["nparams"] and i not in sc["counters"]
+                         and i not in sc["rangevars"]]
                 if cands:
                     x = r.choice(cands)
                     e = self.expr(t, sc, 3)
@@ -508,14 +606,20 @@ class Gen:
 
     def scope(self, ptypes, rtype, callable_, bool_inspect, extra=(), self_slot=False):
         nl = self.r.range(2, 3) if self_slot else self.r.range(3, 6)
+        if not self_slot:
+            # third generation: loop variables of for-in loops over ranges (one per loop) and range-typed locals
+            extra = tuple(extra) + ("fI",) * (2 if rtype is not None else 4) + \
+                tuple("R" + self.r.choice(list(RANGEOP)) for _ in range(self.r.range(0, 2)))
         ltypes = ["I", "I"] + [self.r.choice(["I", "I", "B", "S"]) for _ in range(nl - 2)] + list(extra) + ["I", "I"]   # last two: loop counters
         pre = (["O"] if self_slot else []) + list(ptypes)
         types = pre + [t[1:] if t.startswith("f") else t for t in ltypes]
         n = len(types)
-        loopvar = {"L" + t[1:]: len(pre) + i for i, t in enumerate(ltypes) if t.startswith("f")}
+        loopvar = {"L" + t[1:]: len(pre) + i for i, t in enumerate(ltypes) if t in ("fO", "fU")}
+        rangevars = [len(pre) + i for i, t in enumerate(ltypes) if t == "fI"]
         return dict(types=types, nparams=len(pre), ltypes=ltypes, rtype=rtype, callable=callable_,
                     counters=set(), counter_slots=[n - 2, n - 1], calls_left=[6], bool_inspect=bool_inspect,
-                    hidden=set(loopvar.values()), loopvar=loopvar, in_class=self_slot,
+                    hidden=set(loopvar.values()) | set(rangevars), loopvar=loopvar, in_class=self_slot,
+                    rangevars=rangevars, rv_used=set(),
                     send_names=list(range(len(self.ci["names"]))) if self.ci else [])
 
     def classes(self):
@@ -873,9 +977,27 @@ def feature_key(p):
     """coarse shape of a program for failure keys"""
     s = sx_str(p["sx"])
     feats = [k for k, pat in (("bool-inspect", r"\(insp \((?:cmp|not|and|or|b|call)"), ("while", r"\(while "), ("call", r"\(call "),
-                              ("for", r"\(for "), ("send", r"\(send "), ("dyn-inspect", r"\(list \((?:i|s|sym|chr|b|nil)[ )]"))
+                              ("for", r"\(for \d+ \(v "), ("for-range-literal", r"\(for \d+ \(range "), ("send", r"\(send "), ("dyn-inspect", r"\(list \((?:i|s|sym|chr|b|nil)[ )]"))
              if re.search(pat, s)]
     return "+".join(feats) or "straight"
+
+
+def has_range_value_loop(p):
+    """a for-in whose iterable is a local of a range type (the types are needed to tell it from a list)"""
+    found = [False]
+
+    def walk(x, types):
+        if not isinstance(x, list) or not x:
+            return
+        if x[0] == "for" and isinstance(x[2], list) and x[2][0] == "v" and int(x[2][1]) < len(types) \
+                and types[int(x[2][1])].startswith("R"):
+            found[0] = True
+        for y in x[1:]:
+            walk(y, types)
+    for m, info in zip(p["sx"][1][1:], p["meths"]):
+        walk(m, info["ptypes"] + info["ltypes"])
+    walk(p["sx"][3], p["ltypes"])
+    return found[0]
 
 
 def has_bool_inspect(p):
@@ -1050,7 +1172,7 @@ def run_native_stream(ctx, h, m, elk, cases, tag, plain_n):
         st["lines_compared"] += len(mo["lines"])
         if mo["err"]:
             st["errors_expected"] += 1
-        fk = "bool-inspect" if has_bool_inspect(p) else feature_key(p)
+        fk = "for-range-value" if has_range_value_loop(p) else "bool-inspect" if has_bool_inspect(p) else feature_key(p)
         if vo["kind"] != "run" or obs_diff(vo, mo):
             # A corrupted call site of the bytecode VM (known finding) reads an arbitrary value as the method: what
             # happens next (panic message, nil dereference, wrong interface conversion, an Elk-level error) varies from
@@ -1127,7 +1249,11 @@ def run(ctx):
         "overriding, objects with one Int field, sends dispatched on the receiver's RUNTIME class, list literals, for-in loops, "
         "Symbol/Char/nil values and dynamic inspect; proved: an override always wins, a class without the method behaves like "
         "its superclass (well-formed class tables), a send runs exactly the method selected for the runtime class and Sref keeps "
-        "no call-site state (C09_dispatch_own, C09_dispatch_inherited, C09_send_by_runtime_class). NOT proved: anything about "
+        "no call-site state (C09_dispatch_own, C09_dispatch_inherited, C09_send_by_runtime_class). (4) Third generation: bounded "
+        "Int range literals (`...`, `..<`, `<..`, `<.<`), range values in locals and for-in over them; proved: Sref iterates "
+        "exactly the integers the bounds describe (start/end included or excluded per operator), each once, in increasing "
+        "consecutive order, nothing when start > end (C09_range_elements_exact, C09_forin_range_elements). `break`/`continue` "
+        "are NOT in the fragment (only `return` leaves a loop early). NOT proved: anything about "
         "compiler/go_compiler.go (17k lines), the bytecode compiler/VM or the native call path (Thread.CallMethodByNameWithCache, "
         "vm.LookupMethodInCache: the 3-entry inline cache of dynamically dispatched calls in generated Go is NOT modelled) - "
         "they are only compared with Sref and with each other on generated programs of this fragment (c09.native), where "
@@ -1210,7 +1336,11 @@ def run(ctx):
                "(Int | String | Symbol | Char | Bool | nil) locals and parameters, List[K0] and List[<union>] literals of 4-14 "
                "elements with runs of equal classes, for-in loops (nested in while loops and methods) whose bodies send an "
                "overridden method to / inspect the element, so that the dynamically dispatched call sites of the generated Go "
-               "(CallMethodByNameWithCache) see 1..7 receiver classes in many orders; evaluation = one program run on BOTH "
+               "(CallMethodByNameWithCache) see 1..7 receiver classes in many orders; every scope also has for-in loops over range "
+               "LITERALS with each of the four bounded operators (literal bounds, (var % m) +- k bounds, bounds held in a local; "
+               "empty / one-element / negative / start > end ranges) and over range values held in ClosedRange/RightOpenRange/"
+               "LeftOpenRange/OpenRange[Int] locals, bodies printing and accumulating the element, one distinct loop variable "
+               "per loop, nested in while loops and in methods with `return`; evaluation = one program run on BOTH "
                "back ends and compared with Sref and with each other (stdout lines, uncaught error class+message, zero/non-zero "
                "status); non-trivial = distinct executed program; rejected / back-end-panicking programs are skipped and "
                "counted (skip_rate)",
